@@ -35,3 +35,11 @@ claim("C13", "model_checking", "exhaustive environment-answer and fault-sequence
       "positions and chord diagrams of up to 3/4 stems: the conversion never raises, is lossless, equals FCFS whenever no optimum was "
       "delivered and is optimal otherwise.",
       "The solver is substituted at pulp module seams (pulp.HiGHS_CMD, pulp.LpSolverDefault, explicit argument); HiGHS itself is absent.", "DESIGN.md 3/C13")
+
+claim("C14", "model_checking", "deviation-bounded exploration of set-iteration orders through a module seam, bound to real interpreters by a cross-process hash-seed battery",
+      "Every alternative iteration order (d<=1 quick, d<=2 thorough) of every seed-dependent set iterated by rnapolis.common/tertiary while "
+      "producing the 2D outputs is executed; and a battery of SHA-256 digests of all library and CLI outputs on a fixed input list is "
+      "compared across fresh interpreters with PYTHONHASHSEED in {0,1,2,3,random} (quick) / {0..15,random,random} (thorough) and across "
+      "repeated in-process calls. A violation is reported only when two real runs differ.",
+      "Hash seeds are a finite list; set displays bypass the seam (listed by an AST pass); KD-tree pair sets contain int tuples whose order does not depend on the seed.",
+      "DESIGN.md 3/C14")
